@@ -970,11 +970,20 @@ func (dsc *dataStoreCommand) restore(keyName, serializedData string, ttl int64, 
 		}
 	}
 
-	len := binary.BigEndian.Uint32(content[2:6])
-	var serialBytes []byte
-	if len > 0 {
-		serialBytes = content[6 : 6+len-1]
+	// the payload comes from the client: only what dump() produces for a
+	// string is accepted - a string type tag and a length that matches the
+	// bytes that follow (other types are not serialised by dump)
+	if len(content) < 6 || bitflags(content[1]) != FLAG_KEY_TYPE_STRING {
+		output.data = respErrorString("ERR Bad data format")
+		return
 	}
+	declared := binary.BigEndian.Uint32(content[2:6])
+	if declared == 0 || uint64(declared)-1 != uint64(len(content)-6) {
+		output.data = respErrorString("ERR Bad data format")
+		return
+	}
+	serialBytes := make([]byte, len(content)-6)
+	copy(serialBytes, content[6:])
 
 	newSk := dsc.ds.newStoreKeyUnlocked(keyName)
 	newSk.flags = bitflags(content[1])
